@@ -328,6 +328,8 @@ fn main() {
 fn run(tier: &str, seed: u64, checked: bool, rep: &mut Report) {
     let mut rng = Rng::new(seed ^ 0xc13);
     let thorough = tier == "thorough";
+    // release runs pay ~0.2 s of provider calls for every image whose walk never terminates: fewer generated images
+    let div = if checked { 1 } else { 3 };
     for (label, img, fill) in adversarial(&mut rng) {
         for cs in [4usize, 8] {
             let case = Case { key: "c13".into(), cs, fill, img: img.clone(), queries: all_queries(&mut rng) };
@@ -336,7 +338,7 @@ fn run(tier: &str, seed: u64, checked: bool, rep: &mut Report) {
         }
     }
     // random bytes
-    for _ in 0..if thorough { 3000 } else { 150 } {
+    for _ in 0..if thorough { 3000 / div } else { 150 } {
         let n = match rng.below(5) {
             0 => rng.range(0, 140),
             1 => rng.range(128, 400),
@@ -353,7 +355,7 @@ fn run(tier: &str, seed: u64, checked: bool, rep: &mut Report) {
     }
     // structured, then mutated
     let small = GenOpts::small();
-    for _ in 0..if thorough { 12_000 } else { 500 } {
+    for _ in 0..if thorough { 12_000 / div } else { 500 } {
         let d = eg::gen_device(&mut rng, &small);
         let (mut img, ext) = d.encode();
         let mut label = "structured";
